@@ -43,7 +43,8 @@ func init() {
 
 // proxyRuntime: calldata = kind(1) | target(20) | value(32) | gas(32; 0 = all) | callSize(32; 2^256-1 = payload length) | payload.
 // Copies the payload to memory offset 0, performs the call of the given kind with input mem[0:callSize], never reverts, and
-// returns success(32) | gas consumed around the call(32) | returndata.
+// returns success(32) | gas consumed around the call(32) | returndata.  With the high bit of `kind` set the frame REVERTs
+// (with the same data) after the call, so that everything done inside it is undone.
 func proxyRuntime() []byte {
 	a := easm.New()
 	a.Push(117).Op(easm.CALLDATASIZE, easm.SUB) // plen
@@ -56,6 +57,8 @@ func proxyRuntime() []byte {
 	a.Op(easm.POP, easm.GAS)
 	a.Label("g").Push(0x8020).Op(easm.MSTORE)
 	a.Push(0).Op(easm.CALLDATALOAD).Push(0xf8).Op(easm.SHR)
+	a.Op(easm.DUP1).Push(0x80).Op(easm.AND).Push(0x8060).Op(easm.MSTORE) // revert flag
+	a.Push(0x7f).Op(easm.AND)
 	a.Op(easm.DUP1).Push(1).Op(easm.EQ).JumpiTo("static")
 	a.Op(easm.DUP1).Push(2).Op(easm.EQ).JumpiTo("deleg")
 	a.Op(easm.DUP1).Push(3).Op(easm.EQ).JumpiTo("callcode")
@@ -83,7 +86,9 @@ func proxyRuntime() []byte {
 	a.Op(easm.GAS).Push(0x8040).Op(easm.MLOAD).Op(easm.SUB).Push(0x9020).Op(easm.MSTORE)
 	a.Push(0x9000).Op(easm.MSTORE)
 	a.Op(easm.RETURNDATASIZE).Push(0).Push(0x9040).Op(easm.RETURNDATACOPY)
+	a.Push(0x8060).Op(easm.MLOAD).JumpiTo("rev")
 	a.Op(easm.RETURNDATASIZE).Push(0x40).Op(easm.ADD).Push(0x9000).Op(easm.RETURN)
+	a.Label("rev").Op(easm.RETURNDATASIZE).Push(0x40).Op(easm.ADD).Push(0x9000).Op(easm.REVERT)
 	return a.Bytes()
 }
 
